@@ -229,6 +229,78 @@ func c02Partition(w *World, r *Report) {
 		}
 		r.Check(!both1 && !both2 && !neither, "C02/TARGET-PARTITION", FuncName(fn)+"/exactly-one", w.Pos(fn.Pos()), "every successful visit passes exactly one of create and patch", "a target can be visited successfully without being created or patched (or with both)")
 	}
+	c02PartitionLoop(w, r, up)
+}
+
+// c02PartitionLoop: the same partition where the visitor was turned into a plain loop over the targets
+// inside update itself: per iteration exactly one of create and patch.
+func c02PartitionLoop(w *World, r *Report, up *ssa.Function) {
+	var create, update, get ssa.CallInstruction
+	for _, c := range callInstrs(up) {
+		f, _ := calleeOf(c.Common())
+		if f == nil {
+			continue
+		}
+		switch FuncName(f) {
+		case "pkg/kube.createResource":
+			create = c
+		case "pkg/kube.updateResource":
+			update = c
+		case "(*k8s.io/cli-runtime/pkg/resource.Helper).Get":
+			if get == nil {
+				get = c
+			}
+		}
+	}
+	if create == nil || update == nil {
+		return
+	}
+	fn := up
+	r.Fn(FuncName(fn))
+	g := FullGraph(fn)
+	if get == nil {
+		r.Bad("C02/TARGET-PARTITION", FuncName(fn)+"/loop", w.Pos(fn.Pos()), "the loop over the targets has a create arm and a patch arm but no live lookup")
+		return
+	}
+	scc := sccOf(fn)
+	comp := scc[create.Block()]
+	in := map[*ssa.BasicBlock]bool{}
+	for _, b := range comp {
+		in[b] = true
+	}
+	var hdr *ssa.BasicBlock
+	for _, b := range comp {
+		for _, p := range b.Preds {
+			if !in[p] {
+				hdr = b
+			}
+		}
+	}
+	if hdr == nil || !in[update.Block()] || len(hdr.Instrs) == 0 {
+		r.Unk("C02/TARGET-PARTITION", FuncName(fn)+"/loop", w.Pos(fn.Pos()), "create and patch are not arms of one loop over the targets")
+		return
+	}
+	var nf []Edge
+	for _, c := range callInstrs(fn) {
+		cc, ok := c.(*ssa.Call)
+		if !ok || !in[cc.Block()] {
+			continue
+		}
+		if f, _ := calleeOf(cc.Common()); f != nil && f.Name() == "IsNotFound" {
+			for _, e := range condEdges(cc) {
+				if e.truth {
+					nf = append(nf, e.Edge)
+				}
+			}
+		}
+	}
+	ex, _ := g.PathExists(entryPos(fn), posOf(create), Avoid{}.withEdges(nf...))
+	r.Check(!ex && len(nf) > 0, "C02/TARGET-PARTITION", FuncName(fn)+"/loop/create-only-if-absent", w.InstrPos(create), "a target is created only where the live lookup reported not-found", "a target can be created although it exists (or the lookup failed for another reason)")
+	top := hdr.Instrs[0]
+	both1, _ := g.PathExists(posOf(create), posOf(update), avoidInstrs(top))
+	both2, _ := g.PathExists(posOf(update), posOf(create), avoidInstrs(top))
+	neither, _ := g.PathExists(IPos{hdr, len(hdr.Instrs) - 1}, IPos{hdr, 0}, avoidInstrs(create, update))
+	r.Check(!both1 && !both2 && !neither, "C02/TARGET-PARTITION", FuncName(fn)+"/loop/exactly-one", w.Pos(fn.Pos()), "every iteration that goes on to the next target passes exactly one of create and patch", "a target can be passed over without being created or patched (or gets both)")
 }
 
 func c02KeepGuard(w *World, r *Report) {
@@ -324,6 +396,19 @@ func c02Identity(w *World, r *Report) {
 			}
 			fx, fy := leafField(bo.X), leafField(bo.Y)
 			if fx == "" || fx != fy {
+				// two GroupKind() values compared as structs: Group and Kind at once
+				if gkCall(bo.X) && gkCall(bo.Y) {
+					for _, f := range []string{"Group", "Kind"} {
+						for _, e := range condEdges(bo) {
+							if e.truth == (bo.Op == token.EQL) {
+								eq[f] = append(eq[f], e.Edge)
+							}
+						}
+					}
+					if bo.Op == token.EQL {
+						eqVal[bo] = "Group+Kind"
+					}
+				}
 				continue
 			}
 			if bo.Op == token.EQL {
@@ -365,7 +450,9 @@ func c02Identity(w *World, r *Report) {
 		}
 		out := pathImplied(at)
 		if f, ok := eqVal[v]; ok {
-			out[f] = true
+			for _, x := range strings.Split(f, "+") {
+				out[x] = true
+			}
 			return out
 		}
 		if phi, ok := v.(*ssa.Phi); ok && d < 4 {
@@ -413,6 +500,16 @@ func c02Identity(w *World, r *Report) {
 		}
 	}
 	r.Check(len(missing) == 0, "C02/IDENTITY", "isMatchingInfo", w.Pos(fn.Pos()), "a true result implies equal name, namespace, kind and group", "resource identity ignores "+strings.Join(missing, ", ")+": distinct resources are treated as one (a dropped one would not be deleted, or the wrong one patched)")
+}
+
+// gkCall: v is the result of schema.GroupVersionKind.GroupKind().
+func gkCall(v ssa.Value) bool {
+	c, ok := v.(*ssa.Call)
+	if !ok {
+		return false
+	}
+	f, _ := calleeOf(c.Common())
+	return f != nil && f.Name() == "GroupKind" && strings.HasSuffix(fnPkgPath(f), "apimachinery/pkg/runtime/schema")
 }
 
 func leafField(v ssa.Value) string {
